@@ -1,5 +1,6 @@
 (* C19 — executable model of ibldsp.utils.sync_timestamps (src/ibldsp/utils.py),
-   exact rational arithmetic (Q).  Definitions only.
+   exact arithmetic (integer clock ticks for the
+   first pass, rationals Q afterwards).  Definitions only.
 
    The coarse offset delta_t (binned cross-correlation + parabolic_max) is an
    INPUT of the model; everything after line "do a first assignment at a DT
@@ -22,21 +23,25 @@ Fixpoint zmem (j : Z) (l : list Z) : bool :=
   match l with [] => false | k :: r => (j =? k)%Z || zmem j r end.
 
 (* ---- first pass -----------------------------------------------------------
+   The first pass only subtracts, takes absolute values and compares, so it is
+   modelled on integer clock ticks (all times, delta_t and tbin are integer
+   multiples of one tick 1/den of arbitrary resolution — every finite set of
+   float64 values has such a tick); this is exact real arithmetic.
    dt = np.abs(tsa[m] - delta_t - tsb); inds = np.where(dt < threshold)[0]
    `near thr x tsb j0` = [(j, dt_j)] for j >= j0 in increasing order, x = tsa[m]-delta_t *)
-Fixpoint near (thr x : Q) (tsb : list Q) (j : Z) : list (Z * Q) :=
+Fixpoint near (thr x : Z) (tsb : list Z) (j : Z) : list (Z * Z) :=
   match tsb with
   | [] => []
-  | b :: r => let d := qdist x b in
-              if qltb d thr then (j, d) :: near thr x r (j + 1)%Z
+  | b :: r => let d := Z.abs (x - b) in
+              if (d <? thr)%Z then (j, d) :: near thr x r (j + 1)%Z
               else near thr x r (j + 1)%Z
   end.
 
 (* inds[np.argmin(dt[inds])]: first minimal entry *)
-Fixpoint argmin_first (best : Z * Q) (l : list (Z * Q)) : Z * Q :=
+Fixpoint argmin_first (best : Z * Z) (l : list (Z * Z)) : Z * Z :=
   match l with
   | [] => best
-  | p :: r => if qltb (snd p) (snd best) then argmin_first p r else argmin_first best r
+  | p :: r => if (snd p <? snd best)%Z then argmin_first p r else argmin_first best r
   end.
 
 (*  if inds.size == 1: ib[m] = inds[0]
@@ -45,7 +50,7 @@ Fixpoint argmin_first (best : Z * Q) (l : list (Z * Q)) : Z * Q :=
         if candidates.size == 1: ib[m] = candidates[0]
         elif candidates.size > 1: ib[m] = inds[np.argmin(dt[inds])]     (sic: over inds)
     `prev` = ib[:m] (any order; only membership is used) *)
-Definition assign1 (thr x : Q) (tsb : list Q) (prev : list Z) : Z :=
+Definition assign1 (thr x : Z) (tsb : list Z) (prev : list Z) : Z :=
   let inds := near thr x tsb 0%Z in
   match inds with
   | [] => (-1)%Z
@@ -58,15 +63,18 @@ Definition assign1 (thr x : Q) (tsb : list Q) (prev : list Z) : Z :=
       end
   end.
 
-Fixpoint first_pass_from (thr delta : Q) (tsa tsb : list Q) (prev : list Z) : list Z :=
+Fixpoint first_pass_from (thr delta : Z) (tsa tsb : list Z) (prev : list Z) : list Z :=
   match tsa with
   | [] => []
-  | a :: r => let v := assign1 thr (a - delta) tsb prev in
+  | a :: r => let v := assign1 thr (a - delta)%Z tsb prev in
               v :: first_pass_from thr delta r tsb (v :: prev)
   end.
 
-Definition first_pass (thr delta : Q) (tsa tsb : list Q) : list Z :=
+Definition first_pass (thr delta : Z) (tsa tsb : list Z) : list Z :=
   first_pass_from thr delta tsa tsb [].
+
+(* ticks -> seconds *)
+Definition tq (den : positive) (t : Z) : Q := Qmake t den.
 
 (* ---- matched pairs:  tsa[ib >= 0], tsb[ib[ib >= 0]] ------------------------ *)
 Fixpoint matched (tsa : list Q) (ib : list Z) (tsb : list Q) : list (Q * Q) :=
@@ -215,13 +223,16 @@ Record sync_result := mkSync {
   sr_fcn : a2b;
   sr_slope : Q }.
 
-Definition sync (linear : bool) (tbin delta : Q) (tsa tsb : list Q) : option sync_result :=
+Definition sync (linear : bool) (den : positive) (tbin delta : Z) (tsa tsb : list Z)
+  : option sync_result :=
   let ib1 := first_pass tbin delta tsa tsb in
-  match interp_fcn linear tsa ib1 tsb with
+  let qa := map (tq den) tsa in
+  let qb := map (tq den) tsb in
+  match interp_fcn linear qa ib1 qb with
   | None => None
   | Some (f1, _) =>
-      let ib2 := second_pass tbin f1 tsa tsb ib1 in
-      match interp_fcn linear tsa ib2 tsb with
+      let ib2 := second_pass (tq den tbin) f1 qa qb ib1 in
+      match interp_fcn linear qa ib2 qb with
       | None => None
       | Some (f2, s) => Some (mkSync ib1 ib2 f2 s)
       end
